@@ -73,6 +73,9 @@ def run(ctl, A, sc):
                 else:
                     ctl.log('Result', raised=0 if r is None else -2)
             # give unfinished awaitables (a violation) the chance to show up as not done
+        # hidden global state must not matter: the process has created some tasks before (asyncio numbers them)
+        for _ in range(sc.get('warm', 0)):
+            loop.run_until_complete(asyncio.sleep(0))
         try:
             loop.run_until_complete(main())
         except BaseException as e:
